@@ -5,7 +5,7 @@ export CARGO_NET_OFFLINE=true CARGO_TARGET_DIR=/verif/build/cargo
 export RUSTFLAGS="${RUSTFLAGS:---cfg wirm_verif}"
 mkdir -p build evidence
 ( cargo build --offline --release -q --manifest-path translator/Cargo.toml 2>&1 | tail -5 ) &
-( for e in $(python3 -c "import sys; sys.path.insert(0,'tools'); from props import PROPS; print(' '.join(sorted({s['engine'] for s in PROPS.values()})))"); do
+( for e in $(python3 -c "import sys; sys.path.insert(0,'tools'); from props import PROPS; print(' '.join(sorted({e for s in PROPS.values() for e in ([s['engine']] if s.get('engine') else [q['engine'] for q in s['parts']])})))"); do
     cargo build --offline --release -q --bin $e --manifest-path harness/Cargo.toml 2>&1 | grep -E "^error" -A6 | head -20
   done ) &
 ( cd coq && coq_makefile -f _CoqProject -o Makefile >/dev/null && timeout 3000 make -k -j16 2>&1 | grep -v "^WARNING\|^COQC\|^COQDEP\|Closed under" | tail -20 ) &
